@@ -198,3 +198,55 @@ Lemma cur_unpack_projections_now : forall (X : Type) dim spaces duals (ps : list
   map (@List.length X) ps = map dim duals ->
   unpack_projections X slice_projections_by dim spaces duals (pack X ps) = ps.
 Proof. intros. apply cur_unpack_projections; [assumption|left; apply cur_recipe]. Qed.
+
+(* ---- transposes of the leaf classes that define _transpose / _adjoint (regenerated list [transposable]) ---- *)
+Section Transposes.
+  Variable A : Type.
+  Variables (r0 r1 : A) (radd rmul rsub : A -> A -> A) (ropp : A -> A).
+  Hypothesis Rth : ring_theory r0 r1 radd rmul rsub ropp (@eq A).
+  Add Ring Rr8 : Rth.
+  Notation M := (M A).
+  Inductive leaf := LDense (m : M) | LSparse (m : M) | LDiag (n : nat) (d : nat -> A) | LRankOne (m n : nat) (c r : nat -> A).
+  Definition leaf_class (l : leaf) : string :=
+    match l with LDense _ => "DenseDiscreteBoundaryOperator" | LSparse _ => "SparseDiscreteBoundaryOperator"
+            | LDiag _ _ => "DiagonalOperator" | LRankOne _ _ _ _ => "DiscreteRankOneOperator" end%string.
+  Definition leaf_dense (l : leaf) : M :=
+    match l with LDense m | LSparse m => m | LDiag n d => mdiag A r0 n d | LRankOne m n c r => mouter A rmul m n c r end.
+  (* what `_transpose` builds, by the kind read off the source *)
+  Definition leaf_transpose (k : trkind) (l : leaf) : leaf :=
+    match k, l with
+    | TrDense, LDense m => LDense (mtrans A m)
+    | TrDense, LSparse m => LSparse (mtrans A m)
+    | TrSwap, LRankOne m n c r => LRankOne n m r c
+    | _, l => l                                  (* TrSelf: `return self` *)
+    end.
+  Definition kind_of_class (c : string) : option trkind :=
+    match find (fun p => String.eqb (fst p) c) transposable with Some p => Some (snd p) | None => None end.
+
+  Lemma transposable_now :
+    kind_of_class "DenseDiscreteBoundaryOperator" = Some TrDense /\ kind_of_class "SparseDiscreteBoundaryOperator" = Some TrDense /\
+    kind_of_class "DiagonalOperator" = Some TrSelf /\ kind_of_class "DiscreteRankOneOperator" = Some TrSwap /\
+    List.length transposable = 4%nat.
+  Proof. repeat split; reflexivity. Qed.
+
+  (* op.T of a Dense / Sparse / Diagonal / RankOne operator has the transposed matrix *)
+  Theorem leaf_transposes : forall l k, kind_of_class (leaf_class l) = Some k ->
+    meq A (leaf_dense (leaf_transpose k l)) (mtrans A (leaf_dense l)).
+  Proof.
+    intros l k H. destruct transposable_now as (H1 & H2 & H3 & H4 & _).
+    destruct l; cbn [leaf_class] in H; rewrite ?H1, ?H2, ?H3, ?H4 in H; injection H as <-; cbn [leaf_transpose leaf_dense].
+    - reflexivity.
+    - reflexivity.
+    - symmetry. apply mdiag_trans.
+    - symmetry. eapply mouter_trans; exact Rth.
+  Qed.
+
+  (* what a transpose of the composite classes would have to be (they define none: recorded finding) *)
+  Theorem composite_transposes : forall X Y a,
+    meq A (mtrans A (madd A radd X Y)) (madd A radd (mtrans A X) (mtrans A Y)) /\
+    meq A (mtrans A (mscale A rmul a X)) (mscale A rmul a (mtrans A X)) /\
+    (cols X = rows Y -> meq A (mtrans A (mmul A r0 radd rmul X Y)) (mmul A r0 radd rmul (mtrans A Y) (mtrans A X))).
+  Proof.
+    intros. split; [apply mtrans_madd|]. split; [apply mtrans_mscale|]. eapply mtrans_mmul; exact Rth.
+  Qed.
+End Transposes.
